@@ -51,7 +51,7 @@ def _names_bound_to(f, call):
 def r1_r2(ctx, eff):
     cd = require_func(ctx, "create.create_db")
     sites = temp_sites(ctx, eff, cd)
-    ctx.floor("R1", len(sites), 3, "temp-file creation sites in the import call graph")
+    ctx.floor("R1", len(sites), 1, "temp-file creation sites in the import call graph")
     for f, c, d in sites:
         ok = d in TEMP_MAKERS
         ctx.ob("R1", ok, "intermediate files get a per-call unique name from tempfile (NamedTemporaryFile/mkstemp)", node=c, func=f,
